@@ -1171,3 +1171,22 @@ PLAN['C15']['rule'] += (' Spec level: spec/ScheduleAlg.tla models the forward pa
                         'times are the true distances to the spending block, that the finished schedule satisfies SchedOK and is not empty when something '
                         'could be kept; the variants with the room test off by one and with the creation block of a replaced pair kept are refuted, the '
                         'variant replacing on equal times passes.')
+
+
+# --------------------------------------------------------------------------- C14: missing positions of wide partial forests
+def partial_missq_wide(tier):
+    q = tier == 'quick'
+    return partial('partial_missq_wide', ['missq'], 13 if q else 17, 0, minn=8, wideextra=1, timeout=1800 if q else 10800)
+
+
+PLAN['C14']['stages'] = (lambda f: (lambda tier, seed: f(tier, seed) + [partial_missq_wide(tier)]))(PLAN['C14']['stages'])
+PLAN['C14']['rule'] += (' Stage partial_missq_wide: wide configuration of spec/Partial.tla - every all-live forest of 8-12 (thorough: 8-16) leaves in which '
+                        'the instance remembers a run of consecutive leaves plus at most one more is asked for the missing positions of every request of '
+                        'one or two leaves (a needed position whose two children are stored while it is not; several missing positions in one request, '
+                        'which forests of 5 leaves with one remembered leaf do not have).')
+
+
+# --------------------------------------------------------------------------- C17: what a restriction returned survives later updates
+PLAN['C17']['stages'] = (lambda f: (lambda tier, seed: f(tier, seed) + [light_restrict(tier)]))(PLAN['C17']['stages'])
+PLAN['C17']['rule'] += (' Stage light_restrict: the hashes and the proof GetProofSubset returned to a light client (targets in request order: the '
+                        'caller\'s own wants) are retained and compared again after every later Proof.Update, Proof.Undo and verification.')
